@@ -1269,7 +1269,7 @@ def unchanged(before, after):
 def woehler_case(rng):
     return {"kind": "woehler", "layout": rng.choice(["disjoint", "disjoint", "equal", "contained", "overlapping",
                                                      "record-series", "record-array", "record-scalar",
-                                                     "frame-scalar", "frame-array", "frame-pf-array"]),
+                                                     "frame-scalar", "frame-array", "frame-pf-array", "two-shared-swapped"]),
             "n_e": rng.randint(1, 5), "n_s": rng.randint(1, 5), "seed": rng.randrange(1 << 30),
             "k2": rng.choice(["none", "inf", "value"]), "shuffle": rng.random() < 0.5,
             "op": rng.choice(["cycles", "cycles", "load"]), "pf": rng.choice([0.5, 0.1, 0.9, 0.025]),
@@ -1648,6 +1648,113 @@ def perf_oracle(case, stats):
     return None
 
 
+_SCALAR_TRANSFORM = {}
+
+
+def scalar_transform(kind, rng_, mean, slopes, R_goal):
+    """ONE cycle against ONE Haigh diagram (a Series of slopes): (range, mean) of the transformed cycle"""
+    from pylife.strength.meanstress import HaighDiagram
+    key = (kind, rng_, mean, tuple(sorted(slopes.items())), R_goal)
+    v = _SCALAR_TRANSFORM.get(key)
+    if v is None:
+        with warnings.catch_warnings():
+            warnings.simplefilter("ignore")
+            hd = (HaighDiagram.fkm_goodman if kind == "goodman" else HaighDiagram.five_segment)(pd.Series(dict(slopes)))
+            res = hd.transform(pd.DataFrame({"range": [rng_], "mean": [mean]}), R_goal)
+        v = (float(res["range"].iloc[0]), float(res["mean"].iloc[0]))
+        if len(_SCALAR_TRANSFORM) > 200000:
+            _SCALAR_TRANSFORM.clear()
+        _SCALAR_TRANSFORM[key] = v
+    return v
+
+
+def multikey_case(rng):
+    return {"kind": "haigh-multikey", "diagram": rng.choice(["goodman", "goodman", "five"]), "via": rng.choice(["accessor", "haigh"]),
+            "n_shared": rng.choice([2, 2, 3]), "ids": rng.choice(["same-range", "different-ranges"]),
+            "horder": rng.randrange(6), "corder": rng.randrange(24), "extra": rng.choice(["cycle", "cycle", "none"]),
+            "surplus": rng.random() < 0.4, "R_goal": rng.choice([-1.0, 0.0, 0.5]), "seed": rng.randrange(1 << 30)}
+
+
+def multikey_oracle(case):
+    """Mean stress transformation (FKM Goodman / five segment, through the `meanstress_transform` accessor or
+    HaighDiagram.transform) of cycles against Haigh diagrams given PER KEY over two or more index levels that the cycles
+    share in ANOTHER level order, with key sets that are not symmetric under a swap of the levels (not every combination
+    present; ids from one number range or from different ranges): every cycle comes back transformed with ITS key's
+    diagram, as the one-cycle / one-diagram computation gives it; operands untouched."""
+    import random
+    import pylife.strength.meanstress  # noqa: F401
+    from pylife.strength.meanstress import HaighDiagram
+    r = random.Random(case["seed"])
+    shared = ["element", "node", "layer"][: case["n_shared"]]
+    if case["ids"] == "same-range":
+        dom = {n: [1, 2, 3] for n in shared}
+    else:
+        dom = {n: [v + 10 ** (i + 1) * (1 if i else 0) for v in (1, 2, 3)] for i, n in enumerate(shared)}     # 1.., 101.., 1001..
+    combos = list(itertools.product(*[dom[n] for n in shared]))
+    r.shuffle(combos)
+    nk = r.randint(2, min(5, len(combos) - 1))
+    keys = combos[:nk]                                  # not every combination: asymmetric under a swap of levels
+    if case["ids"] == "same-range" and all(tuple(reversed(k)) in keys for k in keys):
+        keys = [k for k in keys if k != tuple(reversed(keys[0])) or len(set(k)) == 1] or keys
+    hkeys = keys + (combos[nk:nk + 1] if case["surplus"] else [])      # (a diagram no cycle refers to)
+    if case["diagram"] == "goodman":
+        slopes = {k: {"M": r.choice([0.1, 0.3, 0.5, 0.2]), "M2": r.choice([0.03, 0.1, 0.2])} for k in hkeys}
+    else:
+        slopes = {k: {"M0": r.choice([0.5, 0.4]), "M1": r.choice([0.3, 0.25]), "M2": r.choice([0.2, 0.15]), "M3": r.choice([0.1, 0.05]),
+                      "M4": r.choice([0.0, 0.02]), "R12": r.choice([0.2, 0.3]), "R23": r.choice([0.6, 0.7])} for k in hkeys}
+    hperm = list(itertools.permutations(shared))[case["horder"] % math.factorial(len(shared))]
+    hrows = list(hkeys)
+    r.shuffle(hrows)
+    hidx = pd.MultiIndex.from_tuples([tuple(k[shared.index(n)] for n in hperm) for k in hrows], names=list(hperm))
+    haigh = pd.DataFrame([slopes[k] for k in hrows], index=hidx)
+    # cycles: the shared levels in ANOTHER order, mostly with a level of their own
+    cnames = shared + (["cycle_number"] if case["extra"] == "cycle" else [])
+    cperms = [p for p in itertools.permutations(cnames) if [n for n in p if n in shared] != list(hperm)]
+    cperm = cperms[case["corder"] % len(cperms)]
+    crow = []
+    for k in keys:
+        for c in range(r.randint(1, 2) if case["extra"] == "cycle" else 1):
+            crow.append((k, c))
+    r.shuffle(crow)
+    cidx = pd.MultiIndex.from_tuples([tuple(c if n == "cycle_number" else k[shared.index(n)] for n in cperm) for k, c in crow], names=list(cperm))
+    cyc = pd.DataFrame({"range": [float(r.choice([100.0, 200.0, 300.0, 400.0])) for _ in crow],
+                        "mean": [float(r.choice([-120.0, -30.0, 0.0, 50.0, 100.0, 250.0])) for _ in crow]}, index=cidx)
+    R_goal = case["R_goal"]
+    what = (f"mean stress transformation ({case['diagram']}, via {case['via']}) of cycles on {list(cperm)} against diagrams per "
+            f"{list(hperm)} ({case['ids']}, keys {sorted(keys)[:4]}{', one surplus diagram' if case['surplus'] else ''}, R_goal {R_goal})")
+    haigh0, cyc0 = haigh.copy(deep=True), cyc.copy(deep=True)
+    try:
+        with warnings.catch_warnings():
+            warnings.simplefilter("ignore")
+            if case["via"] == "accessor":
+                acc = cyc.meanstress_transform
+                lc = (acc.fkm_goodman if case["diagram"] == "goodman" else acc.five_segment)(haigh, R_goal)
+                res = pd.DataFrame({"range": 2.0 * lc.amplitude, "mean": lc.meanstress})
+            else:
+                hd = (HaighDiagram.fkm_goodman if case["diagram"] == "goodman" else HaighDiagram.five_segment)(haigh)
+                res = hd.transform(cyc, R_goal)
+    except Exception as e:
+        return (f"{what} raised {type(e).__name__}: {str(e)[:140]}", "consumer-raises")
+    for name, b, a in (("cycles", cyc0, cyc), ("Haigh parameter", haigh0, haigh)):
+        u = unchanged(b, a)
+        if u:
+            return (f"{what} modified the {name} ({u})", "consumer-inputs-modified")
+    if not isinstance(res, pd.DataFrame) or sorted(res.index.names) != sorted(cnames) or not {"range", "mean"} <= set(res.columns):
+        return (f"{what}: result levels {list(getattr(res, 'index', pd.Index([])).names)}, columns {list(getattr(res, 'columns', []))}", "consumer-levels")
+    pos = [res.index.names.index(n) for n in cperm]
+    got = {tuple(k[i] for i in pos): (float(v[0]), float(v[1])) for k, v in zip(res.index, res[["range", "mean"]].to_numpy())}
+    want = {}
+    for key, row in zip(cyc0.index, cyc0.to_numpy()):
+        kd = dict(zip(cperm, key))
+        want[key] = scalar_transform(case["diagram"], float(row[0]), float(row[1]), slopes[tuple(kd[n] for n in shared)], R_goal)
+    if len(got) != len(res) or set(got) != set(want):
+        return (f"{what}: result keys {sorted(got)[:4]} ({len(res)} rows), expected {sorted(want)[:4]} ({len(want)})", "consumer-keys")
+    for k, v in want.items():
+        if not (core.close(got[k][0], v[0], rtol=1e-12, atol=1e-12) and core.close(got[k][1], v[1], rtol=1e-12, atol=1e-12)):
+            return (f"{what}: cycle {dict(zip(cperm, k))}: (range, mean) = {got[k]}, its own diagram gives {v}", "consumer-value")
+    return None
+
+
 def haigh_five_oracle(case):
     """meanstress.py HaighDiagram.five_segment of a frame (one row of M0..M4, R12, R23 per element; the element rows are
     broadcast to the (element, R) rows): every element's five slopes sit on that element's five intervals."""
@@ -1872,6 +1979,20 @@ def _woehler_oracle(case):
             arg = pd.Series([loads_of() for _ in pairs], index=pd.MultiIndex.from_tuples(pairs, names=[EL, "scenario"]))
             expected = {(e, s): scalar_result(curves[el_labels.index(e)], l) for (e, s), l in zip(pairs, arg)}
             want_names = [EL, "scenario"]
+        elif lay == "two-shared-swapped":
+            # curves per (element, node), loads per (node, element, scenario): TWO shared levels in another order, ids of the
+            # two levels from one number range, not every combination present
+            nodes = [3 - e for e in range(max(ne, 2))]
+            combos = [(e, n) for e in el_labels for n in nodes]
+            r.shuffle(combos)
+            ckeys = combos[: max(2, min(len(combos) - 1, ne + 1))]
+            cs = [dict(curves[el_labels.index(e)], SD=curves[el_labels.index(e)]["SD"] * (1.0 + 0.25 * i)) for i, (e, n) in enumerate(ckeys)]
+            wcobj = pd.DataFrame(cs, index=pd.MultiIndex.from_tuples(ckeys, names=[EL, "node"]))
+            trip = [(n, e, sc) for (e, n) in ckeys for sc in scen]
+            r.shuffle(trip)
+            arg = pd.Series([loads_of() for _ in trip], index=pd.MultiIndex.from_tuples(trip, names=["node", EL, "scenario"]))
+            expected = {(e, n, sc): scalar_result(cs[ckeys.index((e, n))], l) for (n, e, sc), l in zip(trip, arg)}
+            want_names = [EL, "node", "scenario"]
         else:   # overlapping: curves per (element, temperature), loads per (element, scenario)
             temps = [0, 1][: r.randint(1, 2)]
             rows = [(e, t) for e in el_labels for t in temps]
@@ -1956,7 +2077,7 @@ def _woehler_oracle(case):
     return None
 
 
-CONSUMER_KINDS = ("woehler", "haigh", "haigh-five", "haigh-transform", "collective-raise", "matrix", "perf")
+CONSUMER_KINDS = ("woehler", "haigh", "haigh-five", "haigh-transform", "collective-raise", "matrix", "perf", "haigh-multikey")
 
 
 # ------------------------------------------------------------------ the property module
@@ -2134,6 +2255,19 @@ class C13(Prop):
                         case["outside"] = True
                     yield case
         yield {"kind": "perf", "n": 100000, "m": 100, "bound": 4.0}      # performance guard, one case per run
+        # mean stress transformation against diagrams per key over >= 2 levels that the cycles carry in another order
+        j = 0
+        for diagram in ("goodman", "five"):
+            for ids in ("same-range", "different-ranges"):
+                for via in ("accessor", "haigh"):
+                    for nsh in (2, 3):
+                        j += 1
+                        yield {"kind": "haigh-multikey", "diagram": diagram, "via": via, "n_shared": nsh, "ids": ids, "horder": j % 6,
+                               "corder": 3 * j + 1, "extra": ("cycle", "cycle", "none")[j % 3], "surplus": j % 4 == 0,
+                               "R_goal": (-1.0, 0.0, 0.5)[j % 3], "seed": 5000 + j}
+        for i, op in enumerate(("cycles", "load", "cycles")):
+            yield {"kind": "woehler", "layout": "two-shared-swapped", "n_e": 2 + i, "n_s": 2, "seed": 6000 + i, "k2": ("none", "value", "inf")[i],
+                   "shuffle": i == 1, "op": op, "pf": (0.5, 0.1, 0.5)[i], "scatter": ("none", "TN", "none")[i], "elem_name": "str"}
         # a Woehler curve that carries a name beside the numbers: load / cycles of an array stay float64
         for i, (lay, op) in enumerate((("record-array", "load"), ("record-array", "cycles"), ("record-series", "load"),
                                        ("record-scalar", "load"), ("frame-array", "load"), ("disjoint", "load"))):
@@ -2231,6 +2365,8 @@ class C13(Prop):
                 yield {"kind": "haigh-five", "n_e": rng.randint(1, 4), "seed": rng.randrange(1 << 30)}
             elif u < 0.992:
                 yield matrix_case(rng)
+            elif u < 0.996:
+                yield multikey_case(rng)
             else:
                 yield {"kind": "haigh-transform", "n_e": rng.randint(1, 4), "n_c": rng.randint(1, 4), "seed": rng.randrange(1 << 30),
                        "cycles": rng.choice(["disjoint", "per-element"]), "R_goal": rng.choice([-1.0, 0.0, 0.5, -3.0])}
@@ -2338,6 +2474,10 @@ class C13(Prop):
             return res
         if case.get("kind") == "perf":
             return perf_oracle(case, self.stats)
+        if case.get("kind") == "haigh-multikey":
+            k = f"haigh-multikey-{case['diagram']}-{case['via']}-{case['n_shared']}-{case['ids']}"
+            self.stats["consumer_cases"][k] = self.stats["consumer_cases"].get(k, 0) + 1
+            return multikey_oracle(case)
         if case.get("kind") == "matrix":
             k = f"matrix-{case['form']}-{'elem' if case['elem'] else 'noelem'}-{case['rows']}-{case['haigh']}"
             self.stats["consumer_cases"][k] = self.stats["consumer_cases"].get(k, 0) + 1
